@@ -372,10 +372,14 @@ func checkUncommitOrder(P *core.Program, R *core.Report) {
 			}
 		}
 		toOK := ff.AllOrigins(to, nil, func(o core.Origin) bool { return o.Kind == "param" && o.Name == "addr" })
+		// in every way the released coins can come about they are the uncommitted amount
+		// (or nothing, for the denoms that stay in the claimed bucket)
 		amtOK := true
-		for t := range ff.LinOf(coins) {
-			if t != "amount" {
-				amtOK = false
+		for _, vc := range ff.CasesOf(coins, c, 3) {
+			for t := range ff.LinOf(vc.Val) {
+				if t != "amount" { // (the amount algebra does not distinguish denoms)
+					amtOK = false
+				}
 			}
 		}
 		R.Add("C12-uncommit-order", key, "custody release", P.Pos(P.InstrPos(c)), ok && errNil && toOK && amtOK,
